@@ -72,12 +72,13 @@ class Gen:
             eflag |= 0x40; expried = r.choice([1092, 1093, 2000, 65535])
         if safe:
             # histories run with free-list recycling of Lock objects on top of the real ack tables: leave out the two
-            # recorded root causes that free a registered / live lock (re-entrant re-lock carrying require-ack,
+            # recorded root causes that free a registered / live lock (re-entrant re-lock / update carrying require-ack,
             # never-persist mode of an ack-lock, own or inherited) -- with recycling their use-after-free is not a
             # crash but a silent hit on whoever got the object, which the model (fresh allocation) cannot follow
             eflag &= ~0x200
             if tflag & 0x1000:
                 rcount = 0
+                flag &= ~2        # an update of a live hold by a require-ack command: same defect class as the re-entrant re-lock
         data = "-"
         if self.with_data and r.random() < 0.5:
             data = self.with_data(r)
